@@ -1,0 +1,93 @@
+//go:build verif
+
+package llm
+
+// Contracts for govc (contract-based deductive verification). Comment-only: this file
+// contributes no declarations and is compiled only with -tags verif.
+
+// ---- LLM provider (C12, C04): the allow-listed operations (Complete, Chat, Stream, Embed,
+// ---- ListModels, TokenCount) return for every argument the reflective dispatcher can hand them
+// ---- and for every byte sequence the remote end answers with - no index, nil, nil-map or
+// ---- type-assertion panic in this package's code (strict). encoding/json, net/http and io are
+// ---- trusted to behave as documented (std.spec); json.Unmarshal may leave any value (nil map
+// ---- included) in the variable it is given.
+//@ spec func wfH(h *Handler) bool = h != nil && h.client != nil
+
+//@ func NewHandler
+//@   strict
+//@   ensures wfH(result)
+//@ func NewHandlerWithBaseURL
+//@   strict
+//@   ensures result1 == nil ==> wfH(result)
+//@ func (*Handler).Complete
+//@   strict
+//@   requires wfH(h)
+//@ func (*Handler).Chat
+//@   strict
+//@   requires wfH(h)
+//@ func (*Handler).Stream
+//@   strict
+//@   requires wfH(h)
+//@ func (*Handler).Embed
+//@   strict
+//@   requires wfH(h)
+//@ func (*Handler).ListModels
+//@   strict
+//@   requires wfH(h)
+//@ func (*Handler).TokenCount
+//@   strict
+//@ func parseCompletionRequest
+//@   strict
+//@   ensures result1 == nil ==> result != nil
+//@   loop 1 invariant cr != nil && 0 <= rangeidx
+//@ func parseEmbeddingRequest
+//@   strict
+//@   ensures result1 == nil ==> result != nil
+//@ func (*Handler).completeOpenAI
+//@   strict
+//@   requires wfH(h) && req != nil
+//@ func (*Handler).streamOpenAI
+//@   strict
+//@   requires wfH(h) && req != nil
+//@ func (*Handler).embedOpenAI
+//@   strict
+//@   requires wfH(h) && req != nil
+//@ func (*Handler).listModelsOpenAI
+//@   strict
+//@   requires wfH(h)
+//@   loop 1 invariant 0 <= rangeidx
+//@ func parseOpenAICompletionResponse
+//@   strict
+//@ func (*Handler).completeAnthropic
+//@   strict
+//@   requires wfH(h) && req != nil
+//@   loop 1 invariant 0 <= rangeidx && req != nil
+//@ func (*Handler).streamAnthropic
+//@   strict
+//@   requires wfH(h) && req != nil
+//@ func parseAnthropicResponse
+//@   strict
+//@   loop 1 invariant 0 <= rangeidx
+//@ func (*Handler).completeOllama
+//@   strict
+//@   requires wfH(h) && req != nil
+//@ func (*Handler).streamOllama
+//@   strict
+//@   requires wfH(h) && req != nil
+//@ func (*Handler).listModelsOllama
+//@   strict
+//@   requires wfH(h)
+//@   loop 1 invariant 0 <= rangeidx
+//@ func (*Handler).doHTTPRequest
+//@   strict
+//@   requires wfH(h)
+//@   loop 1 invariant req != nil && req.Header != nil
+//@ func (*Handler).openAIHeaders
+//@   strict
+//@   requires h != nil
+//@ func (*Handler).anthropicHeaders
+//@   strict
+//@   requires h != nil
+//@ func parseSSEStream
+//@   strict
+//@   loop 1 invariant 0 <= rangeidx
